@@ -15,6 +15,7 @@ type TypeOpts struct {
 	MaxTuple        int // tuple width
 	MaxFixed        int // largest k of T[k]
 	AllowBoolArrays bool
+	DynBias         bool // prefer dynamic leaves and composite shapes (C10: offsets and lengths everywhere)
 }
 
 var DefaultTypeOpts = TypeOpts{MaxDepth: 3, MaxTuple: 4, MaxFixed: 13}
@@ -30,6 +31,16 @@ type ctx struct {
 func (c *ctx) name(p string) string {
 	c.n++
 	return fmt.Sprintf("%s%d", p, c.n)
+}
+
+func elementaryBiased(t *rapid.T, dyn bool) *refmodel.Type {
+	if dyn && rapid.IntRange(0, 9).Draw(t, "dynleaf") < 4 {
+		if rapid.Bool().Draw(t, "str") {
+			return &refmodel.Type{Kind: refmodel.KString}
+		}
+		return &refmodel.Type{Kind: refmodel.KBytes}
+	}
+	return elementary(t)
 }
 
 func elementary(t *rapid.T) *refmodel.Type {
@@ -60,10 +71,13 @@ func (c *ctx) genType(t *rapid.T, depth int, maySelect bool) *refmodel.Type {
 	k := 0
 	if depth < c.o.MaxDepth {
 		k = rapid.IntRange(0, 9).Draw(t, "shape")
+		if c.o.DynBias && k <= 4 && rapid.Bool().Draw(t, "composite") {
+			k = 5 + k%5
+		}
 	}
 	switch {
 	case k <= 4: // elementary leaf
-		ty := elementary(t)
+		ty := elementaryBiased(t, c.o.DynBias)
 		ty.Name = c.name("f")
 		if maySelect && rapid.IntRange(0, 99).Draw(t, "sel") < c.selProb {
 			*c.cols++
@@ -83,7 +97,7 @@ func (c *ctx) genType(t *rapid.T, depth int, maySelect bool) *refmodel.Type {
 			elem = c.genTuple(t, depth+1, sel)
 			c.underArrTup = saveUnder
 		} else {
-			elem = elementary(t)
+			elem = elementaryBiased(t, c.o.DynBias)
 		}
 		dims := rapid.IntRange(1, 2).Draw(t, "dims")
 		cur := elem
